@@ -20,9 +20,12 @@ import math
 import random
 import sys
 
+import os
+
 import jax
 
-jax.config.update("jax_enable_x64", True)
+X64 = os.environ.get("VERIF_X64", "1") == "1"          # the float32 pass runs in a subprocess with VERIF_X64=0
+jax.config.update("jax_enable_x64", X64)
 
 import equinox as eqx  # noqa: E402
 import jax.numpy as jnp  # noqa: E402
@@ -113,7 +116,7 @@ def project(seg, result, y_c, *, lower, upper, tol, max_iter, root, extra_bound=
         rr = 2 * below - 1
     n_bis = None
     scale = max(abs(root), abs(lower), abs(upper), abs(result)) if root is not None else 0.0
-    eps = np.finfo(np.float64).eps
+    eps = np.finfo(np.float64 if X64 else np.float32).eps
     if root is None:
         within = True
     else:
@@ -232,7 +235,7 @@ def replay_cases(rep: Report, cases: list, rng: random.Random, budget: int, trac
 
 
 def random_runs(rep: Report, rng: random.Random, count: int, traces: list):
-    eps = np.finfo(np.float64).eps
+    eps = np.finfo(np.float64 if X64 else np.float32).eps
     for i in range(count):
         dim = 1 if i % 3 else rng.randrange(2, 7)
         lower, upper = rng.choice(INTERVALS + [(-10.0, 10.0), (-0.3, 0.7), (1e3, 1e3 + 1)])
@@ -270,7 +273,9 @@ def random_runs(rep: Report, rng: random.Random, count: int, traces: list):
         if not np.all(np.isfinite(out)):
             rep.violation({**key, "what": "non-finite result"}, f"inverter returned {out} for roots {xs}", {"xs": xs})
             continue
-        segs = segment(events, dim, (lower + upper) / 2)
+        # the driver's initial vector is constant (the midpoint in the run's own dtype): read it from the first evaluation
+        mid0 = float(events[0][0][-1]) if dim > 1 and events else (lower + upper) / 2
+        segs = segment(events, dim, mid0)
         bound = []
         for d in range(dim):
             eb = sum(abs(C[d, j]) * bound[j] for j in range(d))          # tanh is 1-Lipschitz
@@ -327,10 +332,48 @@ def real_block_network(rep: Report, rng: random.Random, count: int):
                           f"bound {2 * np.asarray(bound)}")
 
 
+def float32_pass(rep: Report, count: int, traces: list):
+    """The same randomised runs with jax_enable_x64 off (the library's default dtype), in a subprocess."""
+    import subprocess
+    import tempfile
+    from engine.pool import Proxy  # noqa: F401
+    with tempfile.NamedTemporaryFile(suffix=".json", delete=False) as f:
+        out = f.name
+    env = dict(os.environ, VERIF_X64="0")
+    p = subprocess.run([sys.executable, "-m", "harness.c10", "--worker32", str(count), "--out", out], env=env,
+                       stdout=subprocess.PIPE, stderr=subprocess.STDOUT, text=True, timeout=1800)
+    try:
+        data = json.loads(open(out).read())
+    except Exception:  # noqa: BLE001
+        rep.machinery_failure(f"float32 worker failed: {p.stdout[-800:]}")
+        return
+    finally:
+        os.unlink(out)
+    for name, args in data["calls"]:
+        if name == "count":
+            args = [args[0], None if args[1] is None else json.dumps(args[1])]
+        getattr(rep, name)(*args)
+    for t in data["traces"]:
+        t["num"]["kind"] = (t["num"]["kind"] or "") + "/float32"
+        traces.append(t)
+    rep.set("float32_traces", len(data["traces"]))
+
+
 def main():
     ap = argparse.ArgumentParser()
     ap.add_argument("--replay")
+    ap.add_argument("--worker32", type=int)
+    ap.add_argument("--out")
     a = ap.parse_args()
+    if a.worker32 is not None:
+        from engine.pool import Proxy
+        from engine.report import seed as _seed
+        px = Proxy(_seed())
+        tr: list = []
+        random_runs(px, random.Random(_seed() + 32), a.worker32, tr)
+        from engine.report import _jsonable
+        open(a.out, "w").write(json.dumps({"calls": _jsonable(px.calls), "traces": _jsonable(tr)}))
+        return 0
     t = tier()
     thorough = t == "thorough"
     rep = Report(PID, t, "model_checking")
@@ -354,6 +397,7 @@ def main():
     replay_cases(rep, r2.cases, rng, 121 if thorough else 40, traces, 1)
     random_runs(rep, rng, 900 if thorough else 150, traces)
     real_block_network(rep, rng, 40 if thorough else 10)
+    float32_pass(rep, 400 if thorough else 60, traces)
     stats = tracecheck.check(rep, "Trace_Bisection", "Trace_Bisection_I.cfg", traces, P_GUARDS, pid=PID,
                              describe=lambda tr: {"g": tr["num"]["kind"], "lower": tr["num"]["lower"],
                                                   "upper": tr["num"]["upper"], "tol": tr["num"]["tol"],
